@@ -171,6 +171,11 @@ def case_hash(case):
     return hashlib.sha256(canon(case).encode()).hexdigest()[:12]
 
 
+def harness_rejected(r):
+    """the harness (not the code under test) refused this case: a shrinking step that leads here left the domain"""
+    return isinstance(r.get('impl'), dict) and 'harness_exception' in r['impl']
+
+
 def shrink_json(case, still_fails, budget=400):
     """Greedy structural shrinking of a JSON case: drop list elements, shorten strings, zero ints,
     replace sub-objects by simpler siblings. `still_fails(case)` must stay true."""
@@ -349,7 +354,11 @@ def evaluate(prop, cases):
         line = dict(c)
         line['impl'] = io
         lines.append(line)
-        recs.append({'case': c, 'impl': io})
+        rec = {'case': c, 'impl': io}
+        gb = sys.modules.get('harness.gen_build')
+        if gb is not None and isinstance(c, dict) and 'cfg' in c and 'ast' in c:
+            rec['_hist'] = gb.session_history()       # what the session had built up to and including this case
+        recs.append(rec)
     outs = run_driver(lines) if lines else []
     for r, o in zip(recs, outs):
         r['fatal'] = o.get('fatal')
@@ -376,6 +385,13 @@ def write_replay(prop, kind, seed, tier, rec, extra=None):
                   'failed_clauses': rec.get('failed'), 'fatal': rec.get('fatal')})
     if extra:
         d.update(extra)
+    try:
+        # builds go through a process-wide session (one Builder, parsed models and configuration constants reused):
+        # a failure may need what was built before; `--replay` runs this history first
+        if rec is not None and rec.get('_hist'):
+            d['session_history'] = rec['_hist']
+    except Exception:  # noqa
+        pass
     h = hashlib.sha256(canon(d).encode()).hexdigest()[:10]
     os.makedirs(os.path.join(VERIF, 'replays'), exist_ok=True)
     path = os.path.join(VERIF, 'replays', f'{prop.id}-{h}.json')
@@ -421,6 +437,9 @@ def run_check(prop, argv=None):
 
     if args.replay:
         rep = json.load(open(args.replay))
+        if rep.get('session_history'):
+            from harness import gen_build as _G
+            _G.replay_session_history(rep['session_history'])
         recs = evaluate(prop, [rep['case']]) if build.ok and rep.get('case') else []
         for r in recs:
             print(json.dumps({'case': r['case'], 'impl': r['impl'], 'model': r['model'],
@@ -495,11 +514,20 @@ def run_check(prop, argv=None):
     for kid, (k, r) in sorted(known_hits.items()):
         print(f"KNOWN-FINDING: property={prop.id} {k['id']} {k['what']}")
 
-    def still_fails_factory(clauses):
+    def model_class(m):
+        return ('err:' + str(m['err'])) if isinstance(m, dict) and 'err' in m else 'ok'
+
+    def still_fails_factory(clauses, orig_model=None):
         def f(c):
             if not prop.valid(c):
                 return False
             rs = evaluate(prop, [c])
+            if rs and harness_rejected(rs[0]):
+                return False
+            # a shrinking step keeps the model's verdict on the case (accepted / refused with which error): labels
+            # the generator attached to the case (`expect`) speak about the original, not about a shrunk case
+            if rs and orig_model is not None and model_class(rs[0].get('model')) != model_class(orig_model):
+                return False
             return bool(rs and set(rs[0]['failed']) & set(clauses)
                         and prop.known(c, rs[0]['impl'], rs[0]['failed'], known_entries) is None)
         return f
@@ -508,9 +536,11 @@ def run_check(prop, argv=None):
         stream, r = failures[0]
         if 'case' in r and r.get('case') is not None and not r.get('noshrink') and not r['case'].get('noshrink'):
             try:
-                small = shrink_json(r['case'], still_fails_factory(r['failed']))
+                small = shrink_json(r['case'], still_fails_factory(r['failed'], r.get('model')))
                 rs = evaluate(prop, [small])
                 if rs and rs[0]['failed']:
+                    if canon(small) == canon(r['case']) and r.get('_hist'):
+                        rs[0]['_hist'] = r['_hist']
                     r = rs[0]
             except Exception:
                 pass
@@ -556,9 +586,11 @@ def run_check(prop, argv=None):
         if found is not None:
             if not found.get('noshrink'):
                 try:
-                    small = shrink_json(found['case'], still_fails_factory(found['failed']))
+                    small = shrink_json(found['case'], still_fails_factory(found['failed'], found.get('model')))
                     rs = evaluate(prop, [small])
                     if rs and rs[0]['failed']:
+                        if canon(small) == canon(found['case']) and found.get('_hist'):
+                            rs[0]['_hist'] = found['_hist']
                         found = rs[0]
                 except Exception:
                     pass
@@ -575,6 +607,8 @@ def run_check(prop, argv=None):
                         if not prop.valid(c):
                             return False
                         rs = evaluate(prop, [c])
+                        if rs and harness_rejected(rs[0]):
+                            return False
                         return bool(rs and not rs[0]['agree'])
                     try:
                         small = shrink_json(rec['case'], disagrees)
